@@ -1504,6 +1504,59 @@ fn nonbulk(cx: &mut Ctx, rng: &mut Rng) {
     }
 }
 
+/// element frames, systematically: every shape (with and without options), every position (the command name and
+/// the sub-command included) x an integer (0, 5, -1, i64::MAX, i64::MIN), a nil bulk, a simple string, an error, a
+/// nested array in that position — through both RESP parsers and the model's `parseE` (`PE` op)
+fn elem_sweep(cx: &mut Ctx, rng: &mut Rng) {
+    #[derive(Clone)]
+    enum El { B(Vec<u8>), I(i64), Nil, S, E, A }
+    let to_sim = |e: &El| match e {
+        El::B(b) => RespValue::BulkString(Some(b.clone())),
+        El::I(i) => RespValue::Integer(*i),
+        El::Nil => RespValue::BulkString(None),
+        El::S => RespValue::SimpleString("OK".into()),
+        El::E => RespValue::Error("ERR x".into()),
+        El::A => RespValue::Array(Some(vec![RespValue::BulkString(Some(b"GET".to_vec()))])),
+    };
+    let to_zc = |e: &El| match e {
+        El::B(b) => RespValueZeroCopy::BulkString(Some(Bytes::from(b.clone()))),
+        El::I(i) => RespValueZeroCopy::Integer(*i),
+        El::Nil => RespValueZeroCopy::BulkString(None),
+        El::S => RespValueZeroCopy::SimpleString(Bytes::from_static(b"OK")),
+        El::E => RespValueZeroCopy::Error(Bytes::from_static(b"ERR x")),
+        El::A => RespValueZeroCopy::Array(Some(vec![RespValueZeroCopy::BulkString(Some(Bytes::from_static(b"GET")))])),
+    };
+    let show = |e: &El| match e { El::B(b) => hex(b), El::I(i) => format!(":{}", i), _ => "~".to_string() };
+    let line = |r: Result<Result<Command, String>, ()>| match r {
+        Ok(Ok(c)) => canon(&c),
+        Ok(Err(e)) => format!("ERR {}", hex(e.as_bytes())),
+        Err(()) => "crash".to_string(),
+    };
+    let variants = [El::I(0), El::I(5), El::I(-1), El::I(i64::MAX), El::I(i64::MIN), El::Nil, El::S, El::E, El::A];
+    for sh in SHAPES {
+        for with_opts in [false, true] {
+            let mut f = base_frame(rng, sh, 0);
+            if with_opts { add_options(rng, sh, &mut f); f.push(slot(rng, 'I')); }
+            for pos in 0..f.len() {
+                for v in &variants {
+                    let mut els: Vec<El> = f.iter().cloned().map(El::B).collect();
+                    els[pos] = v.clone();
+                    let a = line(quiet_panics(|| Command::from_resp(&RespValue::Array(Some(els.iter().map(to_sim).collect())))));
+                    let b = line(quiet_panics(|| Command::from_resp_zero_copy(&RespValueZeroCopy::Array(Some(els.iter().map(to_zc).collect())))));
+                    let op = format!("PE {}", els.iter().map(show).collect::<Vec<_>>().join(" "));
+                    cx.out.op(op.clone(), a.clone());
+                    cx.out.count("elem-frame");
+                    if a != b {
+                        cx.out.violation(&format!("C16:parsers-differ:element:{}", sh.name), "from_resp and from_resp_zero_copy disagree on a command array with an element that is not a bulk string",
+                            json!({"elements": els.iter().map(show).collect::<Vec<_>>(), "position": pos, "from_resp": a, "from_resp_zero_copy": b}));
+                    }
+                    cx.out.case(&op, true);
+                }
+            }
+        }
+    }
+}
+
 /// every command x option combination the translator accepts, on every primed key (with and
 /// without a TTL, every type, and a missing key): the effect on values AND remaining TTLs must be
 /// the one of the direct path
@@ -2265,6 +2318,7 @@ pub fn run(a: &Args) {
     effect_sweep(&mut cx);
     systematic(&mut cx, &mut rng);
     nonbulk(&mut cx, &mut rng);
+    elem_sweep(&mut cx, &mut rng);
     let mut done = 0u64;
     while done < a.n {
         let sh = rng.pick(SHAPES);
